@@ -84,11 +84,26 @@ class BlobEval(Evaluator):
             yield {'reward': float(i % 2), 'blob': blob[:self.width]}
 
 
+class SomeRowsEval(Evaluator):
+    """A tiny custom evaluator: one row per interaction of the environment, but NOTHING for the environments whose tag is in
+    `empty_for` (what e.g. RejectionCB gives when it rejects everything, or any evaluator on an empty environment)."""
+    def __init__(self, empty_for):
+        self.empty_for = tuple(empty_for)
+
+    @property
+    def params(self): return {'empty_for': list(self.empty_for)}
+
+    def evaluate(self, environment, learner):
+        if getattr(environment, 'tag', None) in self.empty_for: return
+        for i, _ in enumerate(environment.read()):
+            yield {'reward': float(i), 'n': i + 1}
+
+
 def _syn(n, seed):
     return TinyEnv(n, seed)
 
 
-SHAPES = ('S1', 'S2', 'S4', 'S5')
+SHAPES = ('S1', 'S2', 'S4', 'S5', 'S6')
 
 
 def base_triples(shape):
@@ -97,7 +112,13 @@ def base_triples(shape):
     if shape == 'S2': return [('e0', 'l0', 'v0'), ('e0', 'l1', 'v0'), ('e1', 'l0', 'v0'), ('e1', 'l1', 'v0')]
     if shape == 'S4': return [('e0', 'l0', 'v0'), ('e1', 'l0', 'v0'), ('e0', 'l1', 'v1'), ('e0', 'l0', 'v1')]
     if shape == 'S5': return [('e0', 'l0', 'v0'), ('e0', 'l0', 'v1'), ('e1', 'l0', 'v0')]
+    if shape == 'S6': return [('e0', 'l0', 'v0'), ('e1', 'l0', 'v1'), ('e0', 'l0', 'v1'), ('e1', 'l0', 'v0')]
     raise ValueError(shape)
+
+
+def zero_row_triples(shape):
+    """The triples (as tags) whose evaluation yields no rows at all."""
+    return {('e1', 'l0', 'v1')} if shape == 'S6' else set()
 
 
 def components(shape):
@@ -111,6 +132,8 @@ def components(shape):
                 'v0': SequentialCB(), 'v1': SequentialCB(record=['reward', 'time'])}
     elif shape == 'S5':      # one interaction record (e0,l0,v1) longer than 3 x 64 KiB (plain) / 2 x 64 KiB (.gz) between small records
         objs = {'e0': _syn(2, 1), 'e1': _syn(2, 2), 'l0': RandomLearner(seed=3), 'v0': SequentialCB(), 'v1': BlobEval(56, 4096)}
+    elif shape == 'S6':      # the evaluation (e1,l0,v1) yields ZERO rows (record ["I",ids,{"_packed":{}}]) between normal triples
+        objs = {'e0': _syn(3, 1), 'e1': _syn(2, 2), 'l0': RandomLearner(seed=3), 'v0': SequentialCB(), 'v1': SomeRowsEval(['e1'])}
     else:
         raise ValueError(shape)
     wrap = {'e': RecEnv, 'l': RecLearner, 'v': RecEval}
